@@ -319,6 +319,14 @@ def cases(tier, seed):
     for tail in ('"abc\\', "'\\", '"abc', "'a", '"a\\x4', '"\\u{41', "12q", "@", '"é\\', "cast", "x =", "x = 1 +", "|:", "&"):
         for lead in ("fn main()\n{\n\tvar x = ", "fn main()\r\n{\r\n\tvar x = ", "// é€\nfn main()\n{\n\tx = "):
             yield {"kind": "end_of_file", "files": [("eof.pn", lead + tail)]}
+    # the verdict table of C07 as a zoo of diagnostics: every type-breaking edit over all primitive type pairs reaches note and
+    # label variants that no sample file has (each must render, without ESC when colours are off, and deterministically)
+    from . import c07
+    rows = c07.edits()
+    step = 4 if quick else 1
+    for k, row in enumerate(rows):
+        if k % step == (seed % step):
+            yield {"kind": "type_rule_row", "files": [("row.pn", row[1])]}
     # diagnostics whose subject spans several lines (adjacent string literals, array / structure literals, calls, bracketed
     # operations): the reported line must be the line the span starts on
     subjects = {
